@@ -326,6 +326,15 @@ Inductive op :=
 | ODel (k : skey)
 | ORead (i : idx) (asc : bool) (from lim : N) (ft tu : option Z).
 
+(* PatchTreasures (CreateIfNotExist) with PatchMeta runs through the same Save -> SaveFunction:
+   the body is a msgpack byte array (value type 0: no value index covers it); SetCreatedAt (only
+   when the call creates the record) and SetUpdatedAt stamp the server clock – the stamped value
+   is observed and passed in; SetExpiredAt z is [Some z]; ClearExpiredAt is [Some 0]
+   (SetExpirationTime(zero time) stores 0 and raises the expiration-changed flag), so the record
+   stops carrying the expiry attribute. IncrementInt64 is [OSet k 7 [new value] None None None];
+   ShiftExpiredTreasures is an [ODel] of every record it returned (deleteHandler). *)
+Definition OPatch (k : skey) (c u e : option Z) : op := OSet k 0%N [] c u e.
+
 Definition step (legacy : bool) (s : st) (o : op) : st * option (option (list skey)) :=
   match o with
   | OSet k ct v c u e => (do_set legacy s k ct v c u e, None)
